@@ -418,18 +418,20 @@ Qed.
 
 (* ---- Checker and resumed connections ------------------------------------------------------------ *)
 Lemma wrapper_r_checked hs cl w fp resumed chk s :
-  (resumed = false \/ chk = true) ->
+  (cl = false \/ resumed = false \/ chk = true) ->
   wrapper_r hs cl (Some w) fp resumed chk = Ok s ->
   hs = Ok s /\ exists c, (if cl then s_server_chain s else s_client_chain s) = Some c /\ fp c = w.
 Proof.
-  unfold wrapper_r. intros [-> | ->] H.
-  - cbn [andb] in H. apply wrapper_accepts. exact H.
-  - rewrite andb_false_r in H. apply wrapper_accepts. exact H.
+  unfold wrapper_r. intros Hc H.
+  assert (resumed && negb chk && cl = false) as E.
+  { destruct Hc as [-> | [-> | ->]]; [apply andb_false_r|reflexivity|].
+    rewrite andb_false_r. reflexivity. }
+  rewrite E in H. exact (wrapper_accepts hs cl w fp s H).
 Qed.
 
-Lemma wrapper_r_bypass_witness :
-  exists s c w, wrapper_r (Ok s) false (Some w) (fun x => x) true false = Ok s /\
-                s_client_chain s = Some c /\ c <> w.
-Proof.
-  exists session_w3, [9], [21]. split; [reflexivity|]. split; [reflexivity|]. discriminate.
-Qed.
+Lemma wrapper_r_client_skips hs w fp : wrapper_r hs true w fp true false = map_exn hs.
+Proof. reflexivity. Qed.
+
+Lemma wrapper_r_former_witness_rejected :
+  wrapper_r (Ok session_w3) false (Some [21]) (fun x => x) true false = Err (OtherExn X_AuthenticationError).
+Proof. reflexivity. Qed.
